@@ -80,7 +80,8 @@ def Sp.step (s : Sp Row) : Op Row → Sp Row
     | _ => s
   | .closeRemove => match s.phase with
     | .live => { s with phase := .closed, dirty := false, seen := .noFile }
-    | _ => s
+    | .closed => { s with seen := .noFile }      -- `_close(rmdb=True)` on a closed object still removes the file
+    | .fresh => s
 
 /-- `r₀` = what was under that name before the object existed -/
 def spec (r₀ : Read Row) (ops : List (Op Row)) : Sp Row := ops.foldl Sp.step ⟨.fresh, none, false, r₀⟩
